@@ -50,6 +50,7 @@ MANIFEST = dict(
 DRIVER_TARGETS = ['SshuttleModel.Code.Dst']
 ASSUMPTIONS = [
     "the kernel fills sockaddr_in / sockaddr_in6 / the ORIGDSTADDR cmsg / pfioc_natlook as the platform headers say",
+    "recvmsg() fills the control buffer the way Linux put_cmsg() does (fake validated against real loopback sockets on every run)",
     "getsockname()/getpeername() print numeric addresses the way inet_ntop does (no %scope suffix)",
     "the server's socket.connect/sendto parse a numeric host the way inet_pton does",
     "islocal() is truthful about whether an address is bound locally",
@@ -136,13 +137,47 @@ class FakeListener:
         return self.bound
 
 
+def kernel_ancillary(cmsgs, ancsize):
+    """What Linux put_cmsg() leaves in a control buffer of `ancsize` bytes: items in order; one that
+    does not fit is cut to the room left (MSG_CTRUNC), one for which not even a header fits is lost.
+    (Checked against real loopback sockets in this sandbox by `validate_recvmsg_fake`.)"""
+    out, flags, room = [], 0, ancsize
+    hdr = socket.CMSG_LEN(0)
+    for (lvl, typ, data) in cmsgs:
+        if room < hdr:
+            flags |= socket.MSG_CTRUNC
+            break
+        if room < socket.CMSG_LEN(len(data)):
+            flags |= socket.MSG_CTRUNC
+            data = data[:room - hdr]
+        out.append((lvl, typ, bytes(data)))
+        room -= min(room, socket.CMSG_SPACE(len(data)))
+    return out, flags
+
+
 class FakeUdpListener:
-    def __init__(self, family, msg):
+    """UDP listener whose recvmsg() honours the buffer sizes it is given, like the kernel:
+    the datagram is cut to `bufsize` (MSG_TRUNC), the ancillary data to `ancsize` (MSG_CTRUNC).
+    `raw=True` hands the ancillary list over untouched (decoding-loop correspondence only)."""
+
+    def __init__(self, family, msg, raw=False):
         self.family = family
         self.msg = msg
+        self.raw = raw
+        self.delivered = None
+        self.ancsize = None
 
-    def recvmsg(self, bufsize, ancsize):
-        return self.msg
+    def recvmsg(self, bufsize, ancsize=0, flags=0):
+        data, cmsgs, fl, src = self.msg
+        self.ancsize = ancsize
+        if self.raw:
+            self.delivered = list(cmsgs)
+            return data, list(cmsgs), fl, src
+        anc, cfl = kernel_ancillary(cmsgs, ancsize)
+        if len(data) > bufsize:
+            data, cfl = data[:bufsize], cfl | socket.MSG_TRUNC
+        self.delivered = anc
+        return data, anc, fl | cfl, src
 
 
 class DummyFile:
@@ -866,18 +901,19 @@ def stream_tcp(ctx, env, logs):
         ctx.hist('tcp:%s:%s' % (method, 'v4' if fam == AF4 else 'v6'))
 
 
-def udp_case(env, le_cmsgs, fam, data):
-    """tproxy.recv_udp alone on one ancillary list (correspondence of the decoding)."""
-    lst = FakeUdpListener(fam, (data, le_cmsgs, 0, ('192.0.2.9', 5353)))
+def udp_case(env, le_cmsgs, fam, data, raw=False):
+    """tproxy.recv_udp alone on one ancillary list (correspondence of the decoding).
+    Returns (model input line, canonical output, result): the model is given what recvmsg()
+    *delivered* into the buffer size the code asked for."""
+    lst = FakeUdpListener(fam, (data, le_cmsgs, 0, ('192.0.2.9', 5353)), raw=raw)
     try:
         r = env.tproxy.recv_udp(lst, 4096)
+        out = 'none' if r[1] is None else 'ok %s %d' % (text_tok(r[1][0]), r[1][1])
     except env.helpers.Fatal:
-        return 'fatal', None
+        out, r = 'fatal', None
     except Exception as e:  # noqa
-        return excname(e), None
-    if r[1] is None:
-        return 'none', r
-    return 'ok %s %d' % (text_tok(r[1][0]), r[1][1]), r
+        out, r = excname(e), None
+    return cmsg_line('t', lst.delivered if lst.delivered is not None else le_cmsgs), out, r
 
 
 def cmsg_line(method, cms):
@@ -895,11 +931,13 @@ def run_udp(ctx, env, logs, case):
         cm = (int(socket.SOL_IP), 20, sockaddr_in(port, addr))
     else:
         cm = (41, 74, sockaddr_in6(port, addr))
+    # what the kernel has for this datagram: the ORIGDSTADDR item first (the only one sshuttle
+    # enables), possibly followed by items of options it did not ask for
     noise = [tuple(x) for x in case.get('noise', [])]
-    cms = [(l, t, common.unhex(d)) for (l, t, d) in noise] + [cm]
+    cms = [cm] + [(l, t, common.unhex(d)) for (l, t, d) in noise]
     lg = Log('udp-tproxy')
-    out, r = udp_case(env, cms, fam, data)
-    lg.add(cmsg_line('t', cms), out)
+    line, out, r = udp_case(env, cms, fam, data)
+    lg.add(line, out)
     method = env.tproxy.Method('tproxy')
     mux = env.client_mux(chani=case.get('chan', 1) - 1)
     client.udp_by_src.clear()
@@ -1066,6 +1104,80 @@ def stream_udp_seq(ctx, env, logs):
         ctx.hist('udpseq:%s:%dsrc' % ('v4' if fam == AF4 else 'v6', nsrc))
 
 
+def real_origdst(env, fam):
+    """The real tproxy.recv_udp on a real loopback UDP socket with IP(V6)_RECVORIGDSTADDR: the
+    destination it recovers must be the address and port the sender addressed."""
+    lvl, opt, host = (socket.SOL_IP, 20, '127.0.0.1') if fam == AF4 else (41, 74, '::1')
+    r = socket.socket(fam, socket.SOCK_DGRAM)
+    s = socket.socket(fam, socket.SOCK_DGRAM)
+    try:
+        r.setsockopt(lvl, opt, 1)
+        r.bind((host, 0))
+        r.settimeout(2)
+        want = r.getsockname()[:2]
+        s.sendto(b'probe,1', want)
+        try:
+            res = env.tproxy.recv_udp(r, 4096)
+            got, exc = res[1], None
+        except Exception as e:  # noqa
+            got, exc = None, e
+        return want, got, exc
+    finally:
+        r.close()
+        s.close()
+
+
+def validate_recvmsg_fake(ctx):
+    """kernel_ancillary() against the real kernel for several control-buffer sizes."""
+    for fam, lvl, opt, host in ((AF4, socket.SOL_IP, 20, '127.0.0.1'), (AF6, 41, 74, '::1')):
+        r = socket.socket(fam, socket.SOCK_DGRAM)
+        s = socket.socket(fam, socket.SOCK_DGRAM)
+        try:
+            r.setsockopt(lvl, opt, 1)
+            r.bind((host, 0))
+            r.settimeout(2)
+            for n in (0, 4, 8, 15, 16, 17, 24, 27, 28, 40):
+                s.sendto(b'x', r.getsockname()[:2])
+                _d, full, _f, _s = r.recvmsg(16, 256)
+                s.sendto(b'x', r.getsockname()[:2])
+                _d, anc, fl, _s = r.recvmsg(16, socket.CMSG_SPACE(n))
+                fake, ffl = kernel_ancillary(full, socket.CMSG_SPACE(n))
+                real = [(int(a), int(b), bytes(c)) for a, b, c in anc]
+                fake = [(int(a), int(b), bytes(c)) for a, b, c in fake]
+                if real != fake or bool(fl & socket.MSG_CTRUNC) != bool(ffl & socket.MSG_CTRUNC):
+                    ctx.corr_break('recvmsg-fake', case=dict(family=fam, ancsize=socket.CMSG_SPACE(n)),
+                                   impl=repr(real), model=repr(fake),
+                                   note='the harness fake of recvmsg() truncation differs from the kernel')
+            ctx.hist('recvmsg-fake-validated:%s' % ('v4' if fam == AF4 else 'v6'))
+        finally:
+            r.close()
+            s.close()
+
+
+def run_udp_real(ctx, env, case):
+    fam = case['family']
+    want, got, exc = real_origdst(env, fam)
+    ok = exc is None and got is not None and same_dest(fam, got[0], got[1], socket.inet_pton(fam, want[0]), want[1])
+    if not ok:
+        ctx.violation('C05:udp:real-socket-destination-lost', case=case,
+                      expected='recv_udp recovers (%s, %d), the address the datagram was sent to' % want,
+                      observed='dstip=%r exception=%r' % (got, exc),
+                      note='real loopback socket with IP(V6)_RECVORIGDSTADDR, real kernel recvmsg()')
+    return want, got, exc
+
+
+def stream_udp_real(ctx, env):
+    try:
+        validate_recvmsg_fake(ctx)
+        for fam in (AF4, AF6):
+            for _ in range(3):
+                ctx.count()
+                run_udp_real(ctx, env, dict(stream='udp-real', family=fam))
+                ctx.hist('udp-real:%s' % ('v4' if fam == AF4 else 'v6'))
+    except OSError as e:
+        ctx.notes.append('real-socket ORIGDSTADDR run not possible here: %r' % (e,))
+
+
 def stream_udp(ctx, env, logs):
     rng = ctx.rng
     v4 = v4_pool(rng, 120)
@@ -1099,15 +1211,16 @@ def stream_udp(ctx, env, logs):
             if n >= 2 and rng.random() < 0.7:
                 d[0:2] = u16_native(rng.choice([AF4, AF6]))
             items.append((lvl, typ, bytes(d)))
-        out, _r = udp_case(env, items, AF4, b'x')
-        logs.append(Log('cmsg-tproxy').add(cmsg_line('t', items), out))
-        lst = FakeUdpListener(AF4, (b'x', items, 0, ('192.0.2.9', 5353)))
+        raw = rng.random() < 0.5      # half: the decoding loop on the untouched list; half: through the buffer
+        line, out, _r = udp_case(env, items, AF4, b'x', raw=raw)
+        logs.append(Log('cmsg-tproxy').add(line, out))
+        lst = FakeUdpListener(AF4, (b'x', items, 0, ('192.0.2.9', 5353)), raw=raw)
         try:
             r = env.ipfw.recv_udp(lst, 4096)
             out = 'none' if r[1] is None else 'ok %s %d' % (text_tok(r[1][0]), r[1][1])
         except Exception as e:  # noqa
             out = excname(e)
-        logs.append(Log('cmsg-ipfw').add(cmsg_line('i', items), out))
+        logs.append(Log('cmsg-ipfw').add(cmsg_line('i', lst.delivered if lst.delivered is not None else items), out))
 
 
 def stream_server_malformed(ctx, env, logs):
@@ -1244,6 +1357,8 @@ def run(ctx):
         sys.stderr = old_err
         env.close()
     real_islocal_probe(ctx, env)      # after close(): the unpatched helpers.islocal with real sockets
+    import sshuttle.methods.tproxy as _tp
+    stream_udp_real(ctx, types.SimpleNamespace(tproxy=_tp))
     seen = set()
     for lg in logs:
         ctx.count()
@@ -1277,6 +1392,9 @@ def replay(ctx, rep):
         if case['stream'] == 'udp':
             sends = run_udp(ctx, env, logs, case)
             return bool(ctx.violations), 'sendto calls=%r' % (sends,)
+        if case['stream'] == 'udp-real':
+            want, got, exc = run_udp_real(ctx, env, case)
+            return bool(ctx.violations), 'sent to %r; recv_udp recovered %r (exception %r)' % (want, got, exc)
         if case['stream'] == 'udpseq':
             bad = run_udp_seq(ctx, env, logs, case)
             return bad is not None, ('datagram #%d: expected %s, observed %r' % (
